@@ -335,13 +335,229 @@ pub fn check(case: &Case, st: &mut Stats) -> Result<(), String> {
     })
 }
 
+// ---------------------------------------------------------------------------------------------
+// Part (b): a real node (gossip state + block fetcher + per-connection handlers) fetching from real peer nodes whose
+// storage layer lies about some blocks
+
+#[derive(Debug, Clone, Serialize, Deserialize, Hash)]
+pub struct NodeCase {
+    /// Number of blocks the peers store (the node starts empty).
+    blocks: usize,
+    /// What the first peer answers for some block numbers (index from the first block):
+    /// 0 = the certified block with another payload, 1 = a valid block of another number, 2 = storage error.
+    lies: Vec<(usize, u8)>,
+}
+
+pub fn gen_node(ch: &mut Choices) -> NodeCase {
+    let blocks = 2 + ch.below(5);
+    let n = ch.below(3);
+    NodeCase { blocks, lies: (0..n).map(|_| (ch.below(blocks), ch.below(3) as u8)).collect() }
+}
+
+/// Storage layer of a peer: an honest in-memory engine whose `get_block` lies as instructed.
+#[derive(Debug)]
+struct LyingEngine {
+    inner: zksync_consensus_engine::testonly::in_memory::Engine,
+    first: u64,
+    lies: Vec<(usize, u8)>,
+    served: Arc<Mutex<Vec<u64>>>,
+}
+
+#[async_trait::async_trait]
+impl zksync_consensus_engine::EngineInterface for LyingEngine {
+    async fn genesis(&self, ctx: &ctx::Ctx) -> ctx::Result<zksync_consensus_roles::validator::Genesis> {
+        self.inner.genesis(ctx).await
+    }
+    async fn get_validator_schedule(&self, ctx: &ctx::Ctx, number: BlockNumber) -> ctx::Result<(zksync_consensus_roles::validator::Schedule, BlockNumber)> {
+        self.inner.get_validator_schedule(ctx, number).await
+    }
+    async fn get_pending_validator_schedule(&self, ctx: &ctx::Ctx, number: BlockNumber) -> ctx::Result<Option<(zksync_consensus_roles::validator::Schedule, BlockNumber)>> {
+        self.inner.get_pending_validator_schedule(ctx, number).await
+    }
+    fn persisted(&self) -> sync::watch::Receiver<BlockStoreState> {
+        self.inner.persisted()
+    }
+    async fn get_block(&self, ctx: &ctx::Ctx, number: BlockNumber) -> ctx::Result<zksync_consensus_roles::validator::Block> {
+        use zksync_consensus_roles::validator::{v2, Block, Payload};
+        self.served.lock().unwrap().push(number.0);
+        let honest = self.inner.get_block(ctx, number).await?;
+        let idx = (number.0 - self.first) as usize;
+        match self.lies.iter().find(|(i, _)| *i == idx).map(|(_, k)| *k) {
+            None => Ok(honest),
+            Some(0) => match honest {
+                Block::FinalV2(b) => Ok(Block::FinalV2(v2::FinalBlock { payload: Payload(vec![0xBA, 0xD0, idx as u8]), justification: b.justification })),
+                other => Ok(other),
+            },
+            Some(1) => {
+                // another genuine block: the neighbour
+                let other = if idx == 0 { number.next() } else { BlockNumber(number.0 - 1) };
+                self.inner.get_block(ctx, other).await
+            }
+            Some(_) => Err(anyhow::format_err!("storage error").into()),
+        }
+    }
+    async fn queue_next_block(&self, ctx: &ctx::Ctx, block: zksync_consensus_roles::validator::Block) -> ctx::Result<()> {
+        self.inner.queue_next_block(ctx, block).await
+    }
+    async fn verify_pregenesis_block(&self, ctx: &ctx::Ctx, block: &zksync_consensus_roles::validator::PreGenesisBlock) -> ctx::Result<()> {
+        self.inner.verify_pregenesis_block(ctx, block).await
+    }
+    async fn verify_payload(&self, ctx: &ctx::Ctx, number: BlockNumber, payload: &zksync_consensus_roles::validator::Payload) -> ctx::Result<()> {
+        self.inner.verify_payload(ctx, number, payload).await
+    }
+    async fn propose_payload(&self, ctx: &ctx::Ctx, number: BlockNumber) -> ctx::Result<zksync_consensus_roles::validator::Payload> {
+        self.inner.propose_payload(ctx, number).await
+    }
+    async fn get_state(&self, ctx: &ctx::Ctx) -> ctx::Result<zksync_consensus_roles::validator::ReplicaState> {
+        self.inner.get_state(ctx).await
+    }
+    async fn set_state(&self, ctx: &ctx::Ctx, state: &zksync_consensus_roles::validator::ReplicaState) -> ctx::Result<()> {
+        self.inner.set_state(ctx, state).await
+    }
+    async fn push_tx(&self, ctx: &ctx::Ctx, tx: zksync_consensus_engine::Transaction) -> ctx::Result<bool> {
+        self.inner.push_tx(ctx, tx).await
+    }
+}
+
+pub fn check_node(case: &NodeCase, st: &mut Stats) -> Result<(), String> {
+    use rand::SeedableRng as _;
+    use zksync_consensus_engine::{testonly::in_memory, EngineManager};
+    use zksync_consensus_network::verif::{self as hook, gossip::Node, NoiseTcp};
+    use zksync_consensus_roles::validator;
+    type Slot = Arc<Mutex<Option<Result<(), String>>>>;
+    let rt = tokio::runtime::Builder::new_current_thread().enable_all().build().unwrap();
+    rt.block_on(async {
+        let ctx = &ctx::root();
+        let rng = &mut rand::rngs::StdRng::seed_from_u64(11);
+        let mut setup = validator::testonly::Setup::new_without_pregenesis(rng, 1);
+        setup.push_blocks_v2(rng, case.blocks);
+        let setup = &setup;
+        let first = setup.first_block();
+        let nk = gen::node_keys();
+        let st2 = &mut *st;
+        let res: Result<(), String> = scope::run!(ctx, |ctx, s| async move {
+            let st = st2;
+            // the node under test: empty store, fetcher running
+            let eng_a = in_memory::Engine::new_random(setup, first);
+            let (mgr_a, run_a) = EngineManager::new(ctx, Box::new(eng_a), zksync_concurrency::time::Duration::seconds(60)).await.map_err(|e| format!("INFRA: EngineManager::new: {e:?}"))?;
+            s.spawn_bg(async { run_a.run(ctx).await.map_err(|e| format!("INFRA: engine runner: {e:#}")) });
+            let mut cfg_a = crate::c12::gossip_cfg(&nk[9]);
+            cfg_a.rpc.get_block_timeout = None;
+            cfg_a.rpc.get_block_rate = zksync_concurrency::limiter::Rate::INF;
+            cfg_a.rpc.push_block_store_state_rate = zksync_concurrency::limiter::Rate::INF;
+            let a = Arc::new(Node::new(cfg_a, mgr_a.clone(), Some(setup.epoch)));
+            {
+                let a = a.clone();
+                s.spawn_bg(async move {
+                    a.run_block_fetcher(ctx).await;
+                    Ok(())
+                });
+            }
+            let last = first.0 + case.blocks as u64; // exclusive
+            // a peer node storing all the blocks, connected to the node under test; returns the outcome slots of both handlers
+            let served_by_liar: Arc<Mutex<Vec<u64>>> = Arc::default();
+            let mut connect = |key: usize, lies: Vec<(usize, u8)>, served: Arc<Mutex<Vec<u64>>>| {
+                let a = a.clone();
+                async move {
+                    // the blocks go straight into the peer's storage (not through its block store, whose cache would answer
+                    // get_block without ever consulting the storage layer)
+                    let inner = in_memory::Engine::new_random(setup, first);
+                    for b in &setup.blocks {
+                        use zksync_consensus_engine::EngineInterface as _;
+                        inner.queue_next_block(ctx, b.clone()).await.map_err(|e| format!("INFRA: peer storage: {e:?}"))?;
+                    }
+                    let eng = LyingEngine { inner, first: first.0, lies, served };
+                    let (mgr, run) = EngineManager::new(ctx, Box::new(eng), zksync_concurrency::time::Duration::seconds(60)).await.map_err(|e| format!("INFRA: EngineManager::new: {e:?}"))?;
+                    s.spawn_bg(async { run.run(ctx).await.map_err(|e| format!("INFRA: engine runner: {e:#}")) });
+                    if mgr.persisted().next().0 < last {
+                        return Err(format!("INFRA: the peer's store holds {:?}, expected blocks up to {last}", mgr.persisted()));
+                    }
+                    let mut l = hook::TcpListener::bind().await.map_err(|e| format!("INFRA: bind: {e:#}"))?;
+                    let mut cfg = crate::c12::gossip_cfg(&nk[key]);
+                    cfg.rpc.get_block_rate = zksync_concurrency::limiter::Rate::INF;
+                    cfg.rpc.push_block_store_state_rate = zksync_concurrency::limiter::Rate::INF;
+                    cfg.gossip.static_outbound = [(nk[9].public(), zksync_concurrency::net::Host(l.addr().to_string()))].into_iter().collect();
+                    let peer = Arc::new(Node::new(cfg, mgr, Some(setup.epoch)));
+                    let (peer_slot, node_slot): (Slot, Slot) = (Arc::default(), Arc::default());
+                    let (p2, ps, addr, akey) = (peer.clone(), peer_slot.clone(), l.addr(), nk[9].public());
+                    s.spawn_bg(async move {
+                        let r = p2.run_outbound_stream(ctx, &akey, addr).await;
+                        *ps.lock().unwrap() = Some(r.map_err(|e| format!("{e:#}")));
+                        Ok(())
+                    });
+                    let tcp = l.accept(ctx).await.map_err(|e| format!("INFRA: accept: {e:?}"))?;
+                    let (stream, _) = NoiseTcp::preface_accept(ctx, tcp).await.map_err(|e| format!("INFRA: preface: {e:?}"))?;
+                    let ns = node_slot.clone();
+                    s.spawn_bg(async move {
+                        let r = a.run_inbound_stream(ctx, stream).await;
+                        *ns.lock().unwrap() = Some(r.map_err(|e| format!("{e:#}")));
+                        Ok(())
+                    });
+                    Ok::<_, String>((peer_slot, node_slot))
+                }
+            };
+            // waits (bounded, real time: sockets are involved) until `done()`
+            async fn until(mut done: impl FnMut() -> bool, what: &str) -> Result<(), String> {
+                for _ in 0..5000 {
+                    if done() {
+                        return Ok(());
+                    }
+                    tokio::time::sleep(std::time::Duration::from_millis(2)).await;
+                }
+                Err(format!("INFRA: {what} did not happen within 10 s"))
+            }
+            let lying = case.lies.iter().any(|(i, _)| *i < case.blocks);
+            let (_liar_slot, node_slot) = connect(0, case.lies.clone(), served_by_liar.clone()).await?;
+            if lying {
+                // the node must drop the lying peer
+                until(|| node_slot.lock().unwrap().is_some(), "dropping a peer that answered get_block with a bad block").await?;
+                // every local consequence of the disconnect has been processed after a few scheduler rounds (no I/O involved)
+                for _ in 0..200 {
+                    tokio::task::yield_now().await;
+                }
+                let next = mgr_a.queued().next().0;
+                let waiting = a.requested_blocks();
+                let missing: Vec<u64> = (next..last).filter(|n| !waiting.contains(n)).collect();
+                st.class("peer_dropped_after_bad_block");
+                if !missing.is_empty() {
+                    return Err(format!(
+                        "after the only peer was dropped for a bad answer, the node stores blocks up to {} (exclusive), no peer is connected, and blocks {missing:?} are neither stored nor waiting in the fetch queue (waiting: {waiting:?}): nobody will ever be asked for them again",
+                        next
+                    ));
+                }
+                if next > first.0 {
+                    st.class("some_blocks_fetched_before_the_lie");
+                }
+                st.nontrivial(common::fingerprint(case));
+                // an honest peer arrives: everything must be fetched from it
+                let (_p, _n) = connect(1, vec![], Arc::default()).await?;
+            }
+            until(|| mgr_a.queued().next().0 >= last, "fetching every announced block from an honest peer").await?;
+            for b in &setup.blocks {
+                let got = mgr_a.get_block(ctx, b.number()).await.map_err(|e| format!("INFRA: get_block: {e:?}"))?;
+                if got.as_ref() != Some(b) {
+                    return Err(format!("block {} stored by the node differs from the certified block", b.number().0));
+                }
+            }
+            st.sample(|| serde_json::json!({"case": case, "served_by_first_peer": served_by_liar.lock().unwrap().clone()}));
+            Ok(())
+        })
+        .await;
+        res
+    })
+}
+
 pub fn main(env: &Env) -> i32 {
     if let Mode::Replay(path) = env.mode() {
-        let (_, case) = Env::read_replay(&path);
+        let (part, case) = Env::read_replay(&path);
+        if part == "node" {
+            return env.finish_replay(&path, common::replay_case::<NodeCase>(case, check_node));
+        }
         return env.finish_replay(&path, common::replay_case::<Case>(case, check));
     }
     let mut parts: Vec<PartReport> = vec![];
     parts.extend(common::run_regress::<Case>(env, "queue", check));
+    parts.extend(common::run_regress::<NodeCase>(env, "node", check_node));
     parts.push(run_proptest(
         env,
         "queue",
@@ -352,9 +568,18 @@ pub fn main(env: &Env) -> i32 {
         || Choices::strategy(200).prop_map(|mut ch| gen_case(&mut ch)),
         check,
     ));
+    parts.push(run_proptest(
+        env,
+        "node",
+        "a real node (gossip state, block fetcher loop, per-connection handler with its get_block client) with an empty store; a real peer node storing 2-6 certified blocks connects over loopback TCP, its storage layer lying about 0-2 of them (certified block with another payload / a genuine block of another number / storage error); \
+         oracle: the node drops the peer on the first bad answer and, once that connection has ended, every block it still misses is waiting in its fetch queue again (no peer is connected, so 'handed to a peer' is impossible); then an honest peer connects and every block must be fetched and equal the certified one. Non-trivial = the first peer lied",
+        PartOpts { cases: env.tier.pick(400, 8_000), max_shrink_iters: 60, samples: 2 },
+        || Choices::strategy(20).prop_map(|mut ch| gen_node(&mut ch)),
+        check_node,
+    ));
     env.finish(
         "exploration",
-        "generated request / peer programs on a deterministic runtime with a set model; the fetcher loop of a running node is not driven as a whole (only the queue it is built on)",
+        "generated request / peer programs on a deterministic runtime with a set model, and a real node fetching from real peer nodes with a lying storage layer over loopback TCP",
         &["concurrent requests for the same block number are documented as unsupported and not generated"],
         parts,
     )
